@@ -28,20 +28,45 @@ STAMPS = [(2021, 3, 1, 0, 0, 0, 0), (2020, 2, 29, 23, 59, 59, 0), (2019, 12, 31,
 PREC = {"ENU": 1e-3, "ECEF": 1e-3, "GEO": 1e-8}
 
 
-def mk_track(srid, n, salt):
+def random_data(srid, n, seed):
+    """seeded random stress values: many decimals, negative, large; timestamps anywhere 1971-2068 incl. end-of-field values"""
+    import random
+    rnd = random.Random(seed)
+    out = []
+    for _ in range(n):
+        if srid == "GEO":
+            v = (round(rnd.uniform(-180, 180), 12), round(rnd.uniform(-90, 90), 12), round(rnd.uniform(-500, 9000), 6))
+        elif srid == "ECEF":
+            v = tuple(round(rnd.uniform(-6.4e6, 6.4e6), 7) for _k in range(3))
+        else:
+            v = tuple(round(rnd.choice([1, 1e3, 9e5]) * rnd.uniform(-1, 1), 7) for _k in range(3))
+        if any(int(c) == -999999 for c in v[:2]):
+            v = (0.5, 0.5, v[2])
+        y = rnd.randrange(1971, 2069)
+        mo = rnd.randrange(1, 13)
+        d = rnd.randrange(1, 29) if rnd.random() < 0.7 else [31, 29 if (y % 4 == 0 and (y % 100 != 0 or y % 400 == 0)) else 28, 31, 30, 31, 30, 31, 31, 30, 31, 30, 31][mo - 1]
+        s = (y, mo, d, rnd.choice([0, 23, rnd.randrange(24)]), rnd.choice([0, 59, rnd.randrange(60)]), rnd.choice([0, 59, rnd.randrange(60)]), rnd.choice([0, 999, rnd.randrange(1000)]))
+        out.append((v, s))
+    return out
+
+
+def mk_track(srid, n, salt, data=None):
     from tracklib.core.track import Track
     from tracklib.core.obs import Obs
     from tracklib.core.obs_coords import ENUCoords, GeoCoords, ECEFCoords
     from tracklib.core.obs_time import ObsTime
     ctor = {"ENU": ENUCoords, "GEO": GeoCoords, "ECEF": ECEFCoords}[srid]
     vals = VALUES[srid]
-    obs, data = [], []
+    obs, out = [], []
     for k in range(n):
-        v = vals[(salt + k) % len(vals)]
-        s = STAMPS[(salt * 3 + k) % len(STAMPS)]
+        if data is not None:
+            v, s = data[k]
+        else:
+            v = vals[(salt + k) % len(vals)]
+            s = STAMPS[(salt * 3 + k) % len(STAMPS)]
         obs.append(Obs(ctor(v[0], v[1], v[2]), ObsTime(*s)))
-        data.append((v, s))
-    return Track(obs), data
+        out.append((v, s))
+    return Track(obs), out
 
 
 def stamp_of(o):
@@ -89,6 +114,9 @@ def write_csv(track, path, cfg, variant):
     TrackWriter.writeToFile(track, path, cfg["e"], cfg["n"], cfg["u"], cfg["t"], SEP[cfg["sep"]], variant % 2)
 
 
+_SEED = 0
+
+
 def replay_layout(cases):
     from tracklib.core.obs_time import ObsTime
     from tracklib.io.track_reader import TrackReader
@@ -97,12 +125,13 @@ def replay_layout(cases):
     try:
         for ci, c in enumerate(cases):
             cfg, want = c["cfg"], c["want"]
-            for salt in (0, 1):
+            for salt in (0, 1, 2):
                 save = (ObsTime.getPrintFormat(), ObsTime.getReadFormat())
                 where = "csv %s" % json.dumps(cfg, sort_keys=True)
                 try:
                     with core.quiet():
-                        track, data = mk_track(cfg["srid"], len(want), salt + cfg["e"] + 2 * cfg["n"])
+                        rdata = random_data(cfg["srid"], len(want), _SEED * 1000003 + ci * 7 + cfg["tf"]) if salt == 2 else None
+                        track, data = mk_track(cfg["srid"], len(want), salt + cfg["e"] + 2 * cfg["n"], rdata)
                         ObsTime.setPrintFormat(PRINT_FMT[cfg["tf"]])
                         path = os.path.join(tmp, "t%d_%d.csv" % (ci, salt))
                         write_csv(track, path, cfg, salt + cfg["tf"])
@@ -313,7 +342,7 @@ def run(ctx):
                         "separators ',', ';', tab (none occurs inside a formatted field); header option 0/1 of the track writer writes no header",
                         "GPX is read with the ISO read format set globally, as the test suite does; coordinates compared at the written precision "
                         "(1 mm metric, 1e-8 degree geographic), timestamps to the second; values whose integer part is the no-data value excluded",
-                        "number formatting fidelity is examined on a finite lattice of stress values"]
+                        "number formatting fidelity is examined on a finite lattice of stress values plus seeded random values (12 decimals geographic, 7 metric)"]
     ctx.tlc_mc("IOLayout", ctx.write_cfg("IO_l.cfg", mc_cfg("layout", 0, False, invs=("PermutationRoundTrip", "WrongFormatOnlyGarblesTime"))),
                label="layout: round-trip law")
     ctx.tlc_mc("IOLayout", ctx.write_cfg("IO_l2.cfg", mc_cfg("layout", 0, False, invs=("AnyIdsRoundTrip",))),
@@ -326,6 +355,8 @@ def run(ctx):
     ctx.tlc_mc("IOLayout", ctx.write_cfg("IO_n2.cfg", mc_cfg("network", 0, False, legacy=True, invs=("NetworkRoundTrip",))),
                label="self-test: pinned header loop refuted", expect_violation="NetworkRoundTrip")
     # generator runs (spec -> code)
+    global _SEED
+    _SEED = ctx.seed
     p1, o1 = ctx.tlc_emit_file("IOLayout", ctx.write_cfg("IO_le.cfg", mc_cfg("layout", 0, True, invs=("PermutationRoundTrip",))), label="emit layouts")
     n1 = ctx.pmap_emitted(p1, replay_layout, chunk=60)
     p2, o2 = ctx.tlc_emit_file("IOLayout", ctx.write_cfg("IO_he.cfg", mc_cfg("history", depth, True)), workers=1, label="emit histories")
